@@ -3,7 +3,7 @@ import json, itertools
 from fractions import Fraction
 import numpy as np
 from harness import votelib as V
-from harness.common import pmap, lean_query, guard, fr, to_np
+from harness.common import pmap, lean_query, guard, fr, to_np, safe_judge
 from harness.c01 import chunks
 
 LEVEL = "proof"
@@ -83,6 +83,7 @@ def consistent_vals(rng, P, m):
     return vals
 
 
+@safe_judge
 def judge(R, it, res, lean):
     P, m, vperm, sig = it["P"], it["m"], it["vperm"], it["sig"]
     if "exc" in res or "hang" in res:
